@@ -1,9 +1,9 @@
 SPECIFICATION Spec
 CONSTANTS
   Params <- MCParams3
-  Ds = {0, 3, 4, 6}
+  Ds = {0, 3, 6}
   Scores = {0, 1}
-  MaxGen = 3
+  MaxGen = 2
 INVARIANT StepsAreEnvSteps
 INVARIANT OneFitnessPerGeneration
 INVARIANT PopShape
